@@ -18,7 +18,7 @@ BC = ["and", "affineGeq", "affineLeq", "alldifferent", "countEq", "elementIv", "
 
 
 # proof files whose authors have reported completion (in-progress files are not imported)
-FINISHED = ["Affine", "AffineLeq", "Dummy", "Element", "MinMax", "Counting", "CountEq", "Lex", "Scc", "NoSubCycle", "AlldifferentReg", "GccReg", "ExactOfSupport", "SupportCertProofs"]
+FINISHED = ["Affine", "AffineLeq", "Dummy", "Element", "MinMax", "Counting", "CountEq", "Lex", "Scc", "NoSubCycle", "AlldifferentReg", "GccReg", "ExactOfSupport", "SupportCertProofs", "AlldiffCorrectFinal"]
 
 
 def available():
@@ -120,6 +120,18 @@ theorem C14_affineEq_oneRound (cs : List Int) (a : Int) (B : Box) :
     ((affineEqCore cs a B).1 ≠ .inc → affineEqCore cs a B = (.cons, eqRound cs a B)) ∧
     ((affineEqCore cs a B).1 = .inc → (affineEqCore cs a B).2 = B) := affineEq_oneRound cs a B
 theorem C14_affineEq_not_exact : ¬ Exact .affineEq := not_exact_affineEq
+'''
+    if "alldifferentC_is_port" in names:
+        c14_extra += '''
+/-- the registered model of alldifferent (the port behind a result checker) IS the ported Python algorithm: on every
+    non-empty box of non-empty domains the checker accepts the port's answer and the fallback is never used; hence
+    `C05/C06/C14_alldifferent` are theorems about the line-by-line port of nucs/propagators/alldifferent_propagator.py -/
+theorem C14_alldifferent_is_port (ps : List Int) (B : Box) (hne : B ≠ []) (hdom : ∀ d ∈ B, d.1 ≤ d.2) :
+    ∃ st B', alldifferent ps B = .ok (st, B') ∧
+      alldifferentC ps B = .ok (st, if st = .inc then B else B') := alldifferentC_is_port ps B hne hdom
+/-- a non-failing answer of the port satisfies Hall's condition and is pruned with respect to every Hall interval -/
+theorem C14_alldifferent_hall (ps : List Int) (B : Box) (hne : B ≠ []) (hdom : ∀ d ∈ B, d.1 ≤ d.2)
+    (B' : Box) (h : alldifferent ps B = .ok (.cons, B')) : HallOK B' ∧ HallPruned B' := port_hall_pruned ps B hne hdom B' h
 '''
     out["C14"] = block("exact", ("C14", "Exact"), BC,
         "  C14 — bound-consistent propagators compute exactly the bounds hull of the solutions.\n\n"
